@@ -513,7 +513,7 @@ def cutoff_choice(rng):
 # ------------------------------------------------------------------ models
 
 def gen_pair_model(rng, route="potable", npots=None, reg0=False, depth=2, target="LAMMPS", maxlabel=6,
-                   nr_choices=None, with_forms=True):
+                   nr_choices=None, with_forms=True, rmax_scale=lambda nr: 1.0):
   """Pair model: species pairs (unique unordered), forms, tables, grid."""
   npots = npots or rng.choice([1, 1, 2, 2, 3, 4, 6])
   nsp = rng.choice([1, 2, 3, 4])
@@ -536,5 +536,5 @@ def gen_pair_model(rng, route="potable", npots=None, reg0=False, depth=2, target
   cutoff = cutoff_choice(rng)
   nr = rng.choice(nr_choices or [3, 4, 5, 8, 11, 21, 50, 101, 200, 400])
   model = {"type": "pair", "target": target, "tab": {"nr": nr, "cutoff": cutoff}, "forms": forms, "tables": tables,
-           "pair": [[a, b, gen_node(rng, depth, route, reg0=reg0, forms=forms, tables=tables, rmax=cutoff)] for a, b in pairs]}
+           "pair": [[a, b, gen_node(rng, depth, route, reg0=reg0, forms=forms, tables=tables, rmax=cutoff * rmax_scale(nr))] for a, b in pairs]}
   return model
